@@ -29,6 +29,7 @@ fn main() {
             let text = std::fs::read_to_string(&args[2]).expect("read schedule");
             let v: Value = serde_json::from_str(&text).expect("parse schedule");
             let list = if v.is_array() { v.as_array().unwrap().clone() } else { vec![v] };
+            verif_harness::sim::start_watchdog(args[3].clone(), 10);
             let mut out = std::io::BufWriter::new(std::fs::File::create(&args[3]).unwrap());
             for sch in list {
                 let cfgs = [Cfg::from_json(&sch["cfg"]["A"]), Cfg::from_json(&sch["cfg"]["B"])];
@@ -51,6 +52,7 @@ fn main() {
             let seed: u64 = args[3].parse().unwrap();
             let count: usize = args[4].parse().unwrap();
             let steps: usize = args[5].parse().unwrap();
+            verif_harness::sim::start_watchdog(args[6].clone(), 10);
             let mut out = std::io::BufWriter::new(std::fs::File::create(&args[6]).unwrap());
             let mut total = 0usize;
             for k in 0..count {
@@ -137,7 +139,9 @@ fn settle(sim: &mut Sim, intent: &mut Intent, lazy: bool) {
         }
     }
     let n = sim.out.len();
-    sim.out.push(json!({"ev": "quiesce", "lazy": lazy, "n": n}));
+    let q = json!({"ev": "quiesce", "lazy": lazy, "n": n});
+    verif_harness::sim::LOG.lock().unwrap().push(q.to_string());
+    sim.out.push(q);
 }
 
 /// A fingerprint of "did anything happen": number of non-pending results and link traffic so far.
@@ -291,6 +295,8 @@ fn random_trace(mode: &str, rng: &mut SmallRng, steps: usize) -> Sim {
     let max_streams = if mode == "pair" || mode == "fair" { 2 } else { 4 };
     let mut fault_at = if faults { rng.random_range(0..steps.max(1)) } else { usize::MAX };
     let mut opened = [0usize; 2];
+    let mut nfaults = 0usize;
+    let mut last_fault_ep = 0usize;
     let mut total_writes = 0usize;
     let write_budget = if mode == "fair" { (cfgs[0].rwnd.max(cfgs[1].rwnd) as usize + 2) * 2 } else { usize::MAX };
 
@@ -299,9 +305,12 @@ fn random_trace(mode: &str, rng: &mut SmallRng, steps: usize) -> Sim {
             break;
         }
         if step == fault_at {
-            fault_at = usize::MAX;
-            let i = rng.random_range(0..2);
-            let kind = pick(rng, &["cutsrc", "endsrc", "cutsink", "dropmux", "close"]);
+            // fault sequences: a second event (often on the same endpoint) may follow shortly
+            fault_at = if nfaults == 0 && rng.random_range(0..2) == 0 { step + rng.random_range(1..=3) } else { usize::MAX };
+            nfaults += 1;
+            let i = if nfaults > 1 && rng.random_range(0..3) != 0 { last_fault_ep } else { rng.random_range(0..2) };
+            last_fault_ep = i;
+            let kind = pick(rng, &["cutsrc", "endsrc", "cutsink", "softcut", "dropmux", "close"]);
             match kind {
                 "dropmux" => {
                     sim.exec(&json!({"op": "drop_mux", "e": en(i)}));
